@@ -13,7 +13,7 @@ import random
 from vlib import build, pipeline, tlc
 
 LEVEL = "model_checking"
-SIZES = [1, 2, 8, 127, 128, 129, 300]
+SIZES = [1, 2, 8, 127, 128, 129, 255, 256, 257, 300, 384]   # around and at multiples of the 128-byte swap slice
 BIG = ["MAX", "QOV"]
 
 
